@@ -387,7 +387,8 @@ def gen_ports (rng, n, maxlen):
         if rng.random() < 0.1: reason = REASON_MODIFY
         cur[no] = (nm, hw)
         steps.append([reason, no, nm, hw, rng.choice([0, 1, 0x10])])
-    case = dict(kind="ports", dpid=100 + ci % 7, initial=initial, steps=steps)
+    case = dict(kind="ports", dpid=[0, 101, 102, 1 << 63, (1 << 64) - 1, 105, 106][ci % 7],
+                initial=initial, steps=steps)
     if early: case["early"] = early
     yield case
 
@@ -455,7 +456,7 @@ def gen_stats (rng, n):
       inter = False
       if reqs[0]["type"] in [r["type"] for r in reqs[1:]]:
         pass
-    yield dict(kind="stats", dpid=200 + ci % 5, requests=reqs, order=order,
+    yield dict(kind="stats", dpid=[0, 201, 202, (1 << 64) - 1, 204][ci % 5], requests=reqs, order=order,
                interleaved=bool(inter), mode=mode)
 
 
